@@ -9,7 +9,7 @@ open Infretis Infretis.Proto Infretis.Store
   load  <list hexstr files> <file> <file> <file>     file = "-" (absent) or <nlines> { <ntoks> tok* }*
       tok = h | w<hex> | i<int> | f<int> | n
       → "<loaded>"
-  hist  <n> <delOld> <delAll> <ninit> { <pn> <list name> }* <nops> { R <pnOld> <list name> <list name> | F }*
+  hist  <n> <delOld> <delAll> <a|r variant> <list keep-ext> <ninit> { <pn> <list name> }* <nops> { R <pnOld> <list name> <list name> | F }*
       → one state per op, separated by " | "
 -/
 
@@ -154,19 +154,25 @@ def handle (toks : List String) : String :=
         | none => "bad-op"
       | none => "bad-op"
     | none => "bad-op"
-  | "hist" :: n :: d1 :: d2 :: ni :: rest =>
-    match parseNat? n, parseNat? ni with
-    | some n, some ni =>
-      match takeInit ni rest with
-      | some (paths, no :: rest) =>
-        match parseNat? no with
-        | some no =>
-          match takeOps no rest with
-          | some (ops, []) => " | ".intercalate (trace (init n (d1 = "1") (d2 = "1") paths) ops)
-          | _ => "bad-op"
-        | none => "bad-op"
-      | _ => "bad-op"
+  | "hist" :: n :: d1 :: d2 :: v :: rest =>
+    match parseNat? n, takeList some' rest with
+    | some n, some (keep, ni :: rest) =>
+      match parseNat? ni with
+      | some ni =>
+        match takeInit ni rest with
+        | some (paths, no :: rest) =>
+          match parseNat? no with
+          | some no =>
+            match takeOps no rest with
+            | some (ops, []) =>
+              let var := if v = "a" then Variant.asIs else Variant.repaired
+              " | ".intercalate (trace (init n (d1 = "1") (d2 = "1") paths var keep) ops)
+            | _ => "bad-op"
+          | none => "bad-op"
+        | _ => "bad-op"
+      | none => "bad-op"
     | _, _ => "bad-op"
+  | "stem" :: [x] => stemOf x
   | _ => "bad-op"
 
 def main : IO Unit := mainWith handle
